@@ -121,8 +121,8 @@ fn session_line(line: &str, stop: bool) -> String {
                 for p in inner_clone {
                     match p.as_rule() {
                         Rule::identifier => {
-                            if let Some(value) = sess.bindings.get(p.as_str()) {
-                                if validate_portable_value(&value, &sess.heap.borrow(), &sess.bindings).is_err() {
+                            if let Ok(value) = &r {
+                                if validate_portable_value(value, &sess.heap.borrow(), &sess.bindings).is_err() {
                                     out_err = true;
                                 }
                             }
